@@ -261,3 +261,8 @@ def interval_disjoint(rej, allowed):
         return lo >= b if strict else lo > b
     # x > a or x >= a
     return hi <= a if strict else hi < a
+
+
+def nfs(src, subst=None):
+    """Normal form (rendered) of an expression given as source text: for writing expectations."""
+    return show(nf(ast.parse(src, mode='eval').body, subst))
